@@ -90,9 +90,11 @@ def docs(seed, n, bad=0.05, nmax=14, corpus_first=True):
         out.extend(c)
     while len(out) < n + (len(c) if corpus_first else 0):
         r = rng.random()
-        if r < 0.6:
+        if r < 0.35:
             out.append(soup(rng, nmax=nmax, bad=bad if rng.random() < 0.3 else 0.0))
-        elif r < 0.9 and c:
+        elif r < 0.75:
+            out.append(structured(rng))
+        elif r < 0.92 and c:
             out.append(mutate(rng, rng.choice(c)))
         else:
             out.append(b"".join(soup(rng, nmax=5) + rng.choice([b"\n", b"\n", b"\r\n", b"\n\n"]) for _ in range(1 + rng.randrange(5))))
@@ -124,3 +126,190 @@ def strings_over(alphabet, maxlen):
     for n in range(1, maxlen + 1):
         for t in itertools.product(alphabet, repeat=n):
             yield b"".join(t)
+
+
+# ---- structured generator: near-valid multi-line constructs in containers ---------------------------
+_WORDS = [b"a", b"foo", b"bar", b"b c", b"x", "é".encode(), b"1", b"#", b"*a*", b"_b_", b"`c`", b"\\*", b"&amp;", b"<b>", b"a*", b"_", b"!", b"]", b"["]
+_LABELS = [b"foo", b"bar", b"Foo", b"bar baz", b"a", "ß".encode(), b"x y", b"1"]
+_DESTS = [b"/url", b"/u", b"<v w>", b"<>", b"http://x.y/z", b"/a(b)c", b"/a\\)b", b"<a\\>b>", b"/u%20v", b"#f"]
+_TITLES = [b"\"t\"", b"'t'", b"(t)", b"\"t u\"", b"'a \"q\" b'", b"\"t", b"(t (u) v)", b"\"&amp;\\\"\"", b"''"]
+
+
+def _inline_template(rng):
+    """a construct as a list of atoms between which line breaks may be inserted"""
+    k = rng.randrange(14)
+    w = lambda: rng.choice(_WORDS)
+    lab = lambda: rng.choice(_LABELS)
+    if k == 0:      # inline link / image
+        t = [rng.choice([b"[", b"![", b"["]), w(), b"]", b"(", rng.choice(_DESTS)]
+        if rng.random() < 0.6:
+            t += [b" ", rng.choice(_TITLES)]
+        return t + [b")"]
+    if k == 1:      # full reference
+        l = lab()
+        return [rng.choice([b"[", b"!["]), w(), b"]", b"["] + _split_words(l) + [b"]"]
+    if k == 2:      # collapsed / shortcut
+        l = lab()
+        return [b"["] + _split_words(l) + [b"]"] + ([b"[", b"]"] if rng.random() < 0.5 else [])
+    if k == 3:      # code span
+        n = rng.choice([1, 1, 2, 3])
+        return [b"`" * n, w(), b" ", w(), b"`" * (n if rng.random() < 0.85 else n + 1)]
+    if k == 4:      # raw html tag
+        return [b"<", rng.choice([b"b", b"a", b"span", b"x-y", b"B"]), b" ", b"c", b"=", rng.choice([b"\"d\"", b"'d e'", b"d", b"\"d"]), rng.choice([b">", b"/>", b" >"])]
+    if k == 5:      # comment / PI / CDATA / declaration
+        o, c = rng.choice([(b"<!--", b"-->"), (b"<?", b"?>"), (b"<![CDATA[", b"]]>"), (b"<!X", b">"), (b"<!--", b"->")])
+        return [o, b" ", w(), b" ", w(), b" ", c]
+    if k == 6:      # autolink
+        return [b"<", rng.choice([b"http://a.b/c", b"a@b.c", b"x:y z", b"ab:", b"a+b.c-d://e"]), b">"]
+    if k == 7:      # emphasis runs
+        d = rng.choice([b"*", b"**", b"_", b"__", b"***"])
+        return [d, w(), b" ", w(), rng.choice([d, d, b"*", b"_"])]
+    if k == 8:      # hard break / backslash / entity at line end
+        return [w(), rng.choice([b"  ", b"\\", b"   ", b" \\", b"&#10;", b" "]), b"\n", w()]
+    if k == 9:      # nested bracket constructs: links / images / reference links inside one another, depth up to 4
+        def nest(d):
+            if d == 0 or rng.random() < 0.25:
+                return [w()]
+            inner = nest(d - 1)
+            if rng.random() < 0.4:
+                inner = inner + [b" "] + nest(d - 1)
+            opener = rng.choice([b"[", b"![", b"["])
+            tail = rng.choice([[b"(", rng.choice(_DESTS), b")"], [b"(", b"/u", b" ", b"\"t\"", b")"], [b"[", rng.choice(_LABELS), b"]"], [b"[", b"]"], []])
+            return [opener] + inner + [b"]"] + tail
+        return nest(1 + rng.randrange(4))
+    if k == 10:     # entity forms
+        return [rng.choice([b"&amp;", b"&#65;", b"&#x41;", b"&#0;", b"&#xD800;", b"&#1234567;", b"&nosuch;", b"&amp", b"&#;", b"&copy;"])]
+    if k == 11:     # unbalanced brackets
+        return [rng.choice([b"[", b"![", b"]", b"[[", b"]]", b"](", b"]["]), w(), rng.choice([b"]", b"](", b")", b"[", b""])]
+    if k == 12:     # link with label that looks like definition
+        return [b"[", w(), b"]", b":", b" ", rng.choice(_DESTS)]
+    return [w()]
+
+
+def _split_words(b):
+    out = []
+    for i, p in enumerate(b.split(b" ")):
+        if i:
+            out.append(b" ")
+        out.append(p)
+    return out
+
+
+def _definition(rng):
+    t = [b"[", ] + _split_words(rng.choice(_LABELS)) + [b"]", b":"]
+    if rng.random() < 0.8:
+        t.append(b" ")
+    t.append(rng.choice(_DESTS))
+    r = rng.random()
+    if r < 0.5:
+        t += [b" ", rng.choice(_TITLES)]
+    elif r < 0.6:
+        t += [rng.choice(_TITLES)]        # no space before the title
+    if rng.random() < 0.2:
+        t += [b" ", rng.choice(_WORDS)]      # trailing garbage
+    return t
+
+
+def _break_atoms(rng, atoms, pbreak):
+    """join atoms, inserting a line break (with continuation indent) at random gaps and inside spaces"""
+    out = bytearray()
+    for i, a in enumerate(atoms):
+        if i and rng.random() < pbreak:
+            out += b"\n" + rng.choice([b"", b"", b" ", b"  ", b"   ", b"    ", b"\t", b"     "])
+        if a == b" " and rng.random() < pbreak:
+            out += rng.choice([b"\n", b" \n", b"\n ", b"\n\n"])
+            continue
+        out += a
+    return bytes(out)
+
+
+def _paragraph(rng):
+    parts = []
+    n = 1 + rng.randrange(3)
+    for _ in range(n):
+        if rng.random() < 0.25:
+            parts.append(rng.choice(_WORDS))
+        else:
+            parts.append(_break_atoms(rng, _inline_template(rng), rng.choice([0.0, 0.15, 0.4])))
+        parts.append(rng.choice([b" ", b" ", b"", b"\n"]))
+    return b"".join(parts).rstrip(b"\n ") + b"\n"
+
+
+def _block(rng, depth):
+    r = rng.random()
+    if r < 0.35:
+        return _paragraph(rng)
+    if r < 0.55:
+        # definitions, possibly several, possibly followed directly by text or an underline
+        out = b""
+        for _ in range(1 + rng.randrange(3)):
+            out += _break_atoms(rng, _definition(rng), rng.choice([0.0, 0.2, 0.5])) + b"\n"
+        tail = rng.random()
+        if tail < 0.3:
+            out += rng.choice([b"", b" ", b"  ", b"    "]) + _paragraph(rng)
+        elif tail < 0.45:
+            out += rng.choice([b"===\n", b"---\n", b"- - -\n"])
+        return out
+    if r < 0.62:
+        return rng.choice([b"# ", b"## ", b"###### ", b"#", b"#\t"]) + _paragraph(rng).replace(b"\n", b" ").rstrip() + rng.choice([b"\n", b" #\n", b" ##  \n", b"\\#\n", b"#\n"])
+    if r < 0.68:
+        return _paragraph(rng) + rng.choice([b"===\n", b"---\n", b"=\n", b"--  \n", b"   ===\n", b"    ===\n"])
+    if r < 0.75:
+        f = rng.choice([b"```", b"~~~", b"````", b"~~~~"])
+        body = b"".join(rng.choice([b"x\n", b"\n", b"  y\n", b"```\n", b"~~~\n", b"<b>\n", b"\tz\n"]) for _ in range(rng.randrange(4)))
+        return rng.choice([b"", b" ", b"   "]) + f + rng.choice([b"", b" go", b"go x", b" \\*"]) + b"\n" + body + (rng.choice([b"", b"  "]) + f + rng.choice([b"", b"`", b" ", b" x"]) + b"\n" if rng.random() < 0.7 else b"")
+    if r < 0.80:
+        return b"".join(rng.choice([b"    ", b"\t", b"     ", b"  \t"]) + rng.choice([b"code", b"- x", b"> y", b"<b>", b""]) + b"\n" for _ in range(1 + rng.randrange(3)))
+    if r < 0.86:
+        o = rng.choice([b"<div>", b"<pre>", b"<!--", b"<?php", b"<!DOCTYPE x>", b"<![CDATA[", b"<b>", b"</x>", b"<script>", b"<table><tr>"])
+        return o + b"\n" + _paragraph(rng) + rng.choice([b"", b"</div>\n", b"</pre>\n", b"-->\n", b"?>\n", b"]]>\n", b"\n", b"</script>x\n"])
+    if r < 0.90:
+        return rng.choice([b"***\n", b"---\n", b"___\n", b"* * *\n", b" - - -\n", b"**\n"])
+    if depth < 3:
+        inner = b"\n".join(_block(rng, depth + 1).rstrip(b"\n") for _ in range(1 + rng.randrange(2))) + b"\n"
+        if rng.random() < 0.5:
+            # block quote, with lazy continuation on some lines
+            lines = inner.split(b"\n")[:-1]
+            out = []
+            for i, l in enumerate(lines):
+                lazy = i > 0 and rng.random() < 0.15
+                out.append(l if lazy else rng.choice([b"> ", b"> ", b">", b" > ", b">\t"]) + l)
+            return b"\n".join(out) + b"\n"
+        marker = rng.choice([b"-", b"+", b"*", b"1.", b"2)", b"10.", b"0.", b"123456789.", b"1234567890."])
+        pad = rng.choice([1, 1, 2, 3, 4, 5])
+        width = len(marker) + (pad if pad <= 4 else 1)
+        lines = inner.split(b"\n")[:-1]
+        out = []
+        for i, l in enumerate(lines):
+            if i == 0:
+                out.append(marker + b" " * pad + l)
+            else:
+                k = rng.random()
+                ind = width if k < 0.7 else rng.choice([0, 1, width - 1, width + 1, width + 4])
+                out.append((b" " * max(0, ind) + l) if l else b"")
+        return b"\n".join(out) + b"\n"
+    return _paragraph(rng)
+
+
+def structured(rng):
+    n = 1 + rng.randrange(4)
+    parts = []
+    for _ in range(n):
+        parts.append(_block(rng, 0))
+        parts.append(rng.choice([b"\n", b"\n", b"", b"\n\n", b" \n"]))
+    doc = b"".join(parts)
+    if rng.random() < 0.3:
+        # definitions for the labels used, after the uses
+        for _ in range(1 + rng.randrange(2)):
+            doc += _break_atoms(rng, _definition(rng), 0.1) + b"\n"
+    r = rng.random()
+    if r < 0.12:
+        doc = doc.replace(b"\n", b"\r\n")
+    elif r < 0.18:
+        doc = doc.replace(b"\n", b"\r")
+    if rng.random() < 0.2:
+        doc = doc.rstrip(b"\r\n")
+    if rng.random() < 0.05:
+        i = rng.randrange(len(doc) + 1)
+        doc = doc[:i] + rng.choice([b"\x00", b"\xff", b"\xe2\x82", b"\t"]) + doc[i:]
+    return doc
